@@ -89,7 +89,12 @@ def make_providers(schedule, rc=None, fc=None, hints=None, packages=None, fc_fun
         else:
 
             async def delayed(self, evaluatable_data, context, key=key, value=value):  # pylint:disable=unused-argument
+                # the evaluation context handed to a method is that evaluation's own: narrowing its scope must not
+                # be visible to (or be overwritten by) the evaluation of another key
+                context.scope = f"$.key{key}"
                 await schedule.pause(("rc", key, value))
+                if context.scope != f"$.key{key}":
+                    return sut.cfv("U" if value == "F" else "F")  # evaluated in a foreign scope: a different answer
                 return sut.cfv(value)
 
             setattr(Rc, f"evaluate_{key}", delayed)
